@@ -14,7 +14,7 @@ func init() { register("C13", checkC13) }
 func checkC13(c *Ctx, r *Report, tier string) {
 	x := newIdxLocks(c)
 	r.Rule("C13.R1", "edge sets only under their lock: every map operation on v.edges[l] (and every replacement of that slot) has v.edgeMutexes[l] — same v, same l — must-held, the write lock for writes", 12)
-	r.Rule("C13.R2", "edge and shard locks are leaf locks: while one may be held, no call that can acquire a mutex and no channel operation (⇒ no lock-order cycle inside the index)", 10)
+	r.Rule("C13.R2", "edge and shard locks are leaf locks: while one may be held, no call that can acquire a mutex and no channel operation (⇒ no lock-order cycle inside the index)", 6)
 	r.Rule("C13.R3", "atomic-only fields (entry point, item/byte counters, tombstone) are touched only as &field arguments of sync/atomic functions (constructors and the apply-goroutine snapshot reader excepted)", 10)
 	r.Rule("C13.R5", "check-then-act atomicity: the existence test and the insert / delete of a shard-map entry happen under one hold of the shard's write lock (two concurrent inserts of one id cannot both succeed)", 2)
 	r.Rule("C13.R4", "vertex fields read without a lock by searches (id, vector, metadata, level) are stored only while the vertex is still private to its constructor; their contents are never written in place", 5)
